@@ -195,7 +195,7 @@ def exec_calls(ctx, pc, tally, notes):
         groups[key].append(ab)
     for key in groups:   # smallest case first: fewest arguments, then no keywords, then the pool order
         groups[key].sort(key=lambda ab: (len(ab["case"]["a"]) + len(ab["case"]["k"]), len(ab["case"]["k"]),
-                                         [pool.index(a) for a in ab["case"]["a"]], ab["id"]))
+                                         [pool.index(a) for a in ab["case"]["a"]], ab["case"]["g"] != "universe", ab["case"]["n"], ab["case"]["r"]))
 
     def sig_of(key, ab):
         c = ab["case"]
@@ -343,12 +343,40 @@ def exec_graphs(ctx, g, tally, notes):
         abs_.sort(key=size)
         if key[2] not in smallest or size(abs_[0]) < size(smallest[key[2]]):
             smallest[key[2]] = abs_[0]
+    # A fatal crash ends its case, so which operation is seen crashing first depends on the order of
+    # the operations.  To report the same signatures in every run, the SMALLEST graph of every defect
+    # class is probed with every operation on every node, each pair alone in its own child.
+    import concurrent.futures
+    probes = [(cls, r, op) for cls in sorted(smallest) for r in range(1, len(smallest[cls]["case"]["kinds"]) + 1) for op in g["ops"]]
+
+    def probe(a):
+        cls, r, op = a
+        base = smallest[cls]["case"]
+        case = dict({k: v for k, v in base.items() if k != "only"}, only=[r, op])
+        return alone(ctx, "graph", case, "probe-%s-%d-%s" % ("+".join(cls), r, op), 60000, 64)
+    with concurrent.futures.ThreadPoolExecutor(6) as ex:
+        probed = list(ex.map(probe, probes))
+    found = set()
+    for (cls, r, op), r1 in zip(probes, probed):
+        if r1 is None or r1["what"] not in ("crash", "hang", "panic"):
+            continue
+        base = smallest[cls]["case"]
+        cyc = cycle_from(base, r)
+        case = dict({k: v for k, v in base.items() if k != "only"}, only=[r, op])
+        if (cls, op) not in found:
+            found.add((cls, op))
+            nclass = sum(len(v) for k, v in groups.items() if k[2] == cls)
+            ctx.violation("graph:%s/op=%s" % (">".join(cyc) if cyc else "acyclic:" + "+".join(base["kinds"]), op),
+                          "%s; %s(n%d) -> %s: %s (%d graphs of this class died in the batch run)" % (graph_text(base), op, r, r1["what"], crash_text(r1), nclass),
+                          {"kind": "graph", "case": case, "cpu_ms": 60000, "stack_mb": 64})
+    # operations that only fail on larger graphs of a class: confirm the smallest such graph
+    rest = {}
     for key, abs_ in groups.items():
-        # try the smallest graph of the whole defect class with this group's operation first
-        cand = [dict(smallest[key[2]], _op=key[1], what=key[0]), abs_[0]]
-        for ab in cand:
-            ab["case"] = dict(ab["case"], only=[ab["_root"], ab["_op"]])
-        groups[key] = cand + abs_[1:]
+        if (key[2], key[1]) in found:
+            continue
+        ab = abs_[0]
+        ab["case"] = dict(ab["case"], only=[ab["_root"], ab["_op"]])
+        rest[key] = abs_
 
     def sig_of(key, ab):
         shape = ">".join(ab["_cyc"]) if ab["_cyc"] else "acyclic:" + "+".join(ab["case"]["kinds"])
@@ -356,7 +384,7 @@ def exec_graphs(ctx, g, tally, notes):
 
     def what_of(ab):
         return "%s; %s(n%d)" % (graph_text(ab["case"]), ab["_op"], ab["_root"])
-    confirm(ctx, "graph", groups, what_of, sig_of, cpu_ms=60000, stack_mb=64, notes=notes, tries=2, par=3)
+    confirm(ctx, "graph", rest, what_of, sig_of, cpu_ms=60000, stack_mb=64, notes=notes, par=3)
     samples = [{"graph": graph_text(s["case"]), "predicted": s["case"]["pred"], "observed": s["result"]["extra"]["got"]} for s in recs if s.get("sample")]
     return {"max_nodes": g["nodes"], "max_late_edges": g["edges"], "graphs": n, "cyclic_graphs": g["cyclic"], "ops": g["ops"],
             "evaluations_declared": g["evals"], "evaluations_run": summ["evaluations"]}, samples
